@@ -29,8 +29,9 @@ def _dy(rng, choices=(0.125, 0.25, 0.5, 1.0)):
 class F(object):
     """A functional of the modelled family: Coq term + odl constructor."""
 
-    def __init__(self, kind, coq, build, desc):
+    def __init__(self, kind, coq, build, desc, spec=None):
         self.kind, self.coq, self.build, self.desc = kind, coq, build, desc
+        self.spec = spec        # the same functional in the plain-data format of the probes (_pf)
 
 
 def _fk(rng, n, role, allow_trans=True):
@@ -45,37 +46,39 @@ def _fk(rng, n, role, allow_trans=True):
     if k == 'trans' and not allow_trans:
         k = 'l2sq'
     if k == 'zero':
-        return F(k, 'FZero', lambda sp: S.ZeroFunctional(sp), 'Zero')
+        return F(k, 'FZero', lambda sp: S.ZeroFunctional(sp), 'Zero', ['zero'])
     if k == 'l1':
         lam = rng.choice([0.5, 1.0, 2.0])
         if lam == 1.0:
-            return F(k, '(FL1 1)', lambda sp: S.L1Norm(sp), 'L1')
-        return F(k, '(FL1 %s)' % C.q(lam), lambda sp: lam * S.L1Norm(sp), '%g*L1' % lam)
+            return F(k, '(FL1 1)', lambda sp: S.L1Norm(sp), 'L1', ['l1'])
+        return F(k, '(FL1 %s)' % C.q(lam), lambda sp: lam * S.L1Norm(sp), '%g*L1' % lam, ['scaled', lam, ['l1']])
     if k == 'l2sq':
         lam = rng.choice([0.5, 1.0, 2.0, 0.25])
         if lam == 1.0:
-            return F(k, '(FL2sq 1)', lambda sp: S.L2NormSquared(sp), 'L2sq')
-        return F(k, '(FL2sq %s)' % C.q(lam), lambda sp: lam * S.L2NormSquared(sp), '%g*L2sq' % lam)
+            return F(k, '(FL2sq 1)', lambda sp: S.L2NormSquared(sp), 'L2sq', ['l2sq'])
+        return F(k, '(FL2sq %s)' % C.q(lam), lambda sp: lam * S.L2NormSquared(sp), '%g*L2sq' % lam,
+                 ['scaled', lam, ['l2sq']])
     if k == 'box':
         lo = float(rng.randint(-2, 0))
         hi = lo + rng.choice([0.5, 1.0, 2.0, 3.0])
-        return F(k, '(FBox %s %s)' % (C.q(lo), C.q(hi)), lambda sp: S.IndicatorBox(sp, lo, hi), 'Box[%g,%g]' % (lo, hi))
+        return F(k, '(FBox %s %s)' % (C.q(lo), C.q(hi)), lambda sp: S.IndicatorBox(sp, lo, hi), 'Box[%g,%g]' % (lo, hi),
+                 ['box', lo, hi])
     if k == 'nonneg':
-        return F(k, 'FNonneg', lambda sp: S.IndicatorNonnegativity(sp), 'Nonneg')
+        return F(k, 'FNonneg', lambda sp: S.IndicatorNonnegativity(sp), 'Nonneg', ['nonneg'])
     if k == 'quad':
         mm = rng.randint(1, 3)
         M = _mat(rng, mm, n)
         bb = _vec(rng, mm)
         return F(k, '(FQuad %d %s %s)' % (n, C.qss(M), C.qs(bb)),
                  lambda sp: S.L2NormSquared(odl.rn(mm)).translated(bb) * odl.MatrixOperator(np.array(M), domain=sp, range=odl.rn(mm)),
-                 'L2sq(M.-b) %dx%d' % (mm, n))
+                 'L2sq(M.-b) %dx%d' % (mm, n), ['l2sqdata', M, bb])
     # translated
     inner = _fk(rng, n, role, allow_trans=False)
     while inner.kind == 'quad':
         inner = _fk(rng, n, role, allow_trans=False)
     c = _vec(rng, n, -2, 2)
     return F('trans', '(FTrans %s %s)' % (inner.coq, C.qs(c)), lambda sp: inner.build(sp).translated(c),
-             '%s.translated' % inner.desc)
+             '%s.translated' % inner.desc, ['trans', c, inner.spec])
 
 
 def _rec():
@@ -152,7 +155,9 @@ def gen_admm(rng, tier, cs):
                'ka_n := %d; ka_opt := %s; ka_ref := %s |}'
                % (n, C.qss(M), f.coq, g.coq, C.q(tau), C.q(sigma), C.qs(x0), N, C.qss(t1), C.qss(t2)),
                {'solver': 'admm_linearized', 'M': M, 'f': f.desc, 'g': g.desc, 'tau': tau, 'sigma': sigma,
-                'x0': x0, 'niter': N},
+                'x0': x0, 'niter': N,
+                'probe': {'kind': 'admm-vs-simple', 'op': ['rn', M], 'f': f.spec, 'g': g.spec, 'tau': tau,
+                          'sigma': sigma, 'x0': x0, 'niter': N}},
                ('admm', n, m, f.coq, g.coq, tau, sigma, N, tuple(x0)) if N > 0 else None)
 
 
@@ -195,7 +200,10 @@ def gen_adup(rng, tier, cs):
                % (n, C.lst(Ms, C.qss), C.lst([g.coq for g in gs]), C.qs(inner), C.lst(innerv, _oqs), C.nats(keys) + '%nat', C.q(step),
                   C.qs(x0), N, C.qss(t1), C.qss(t2), C.qss(ref)),
                {'solver': 'adupdates', 'Ms': Ms, 'g': [g.desc for g in gs], 'inner': inner_arg, 'stepsize': step,
-                'x0': x0, 'niter': N},
+                'x0': x0, 'niter': N,
+                'probe': {'kind': 'adupdates-vs-simple', 'ops': [['rn', M] for M in Ms], 'gs': [g.spec for g in gs],
+                          'inner': [['array', iv] if iv is not None else i for i, iv in zip(inner, innerv)],
+                          'stepsize': step, 'x0': x0, 'niter': N}},
                ('adup', n, tuple(ms), tuple(g.coq for g in gs), step, str(inner_arg), N, tuple(x0)) if N > 0 else None)
 
 
@@ -233,7 +241,9 @@ def gen_dpdc(rng, tier, cs):
                % (n, C.qss(M), f.coq, g.coq, phi.coq, C.q(gamma), C.q(mu), C.qs(x0), C.qs(y0), N, C.qss(t1),
                   C.qs(yfin), C.qss(refx), C.qss(refy), C.qss(sx), C.qss(sy)),
                {'solver': 'doubleprox_dc', 'K': M, 'f': f.desc, 'g': g.desc, 'phi': phi.desc, 'gamma': gamma,
-                'mu': mu, 'x0': x0, 'y0': y0, 'niter': N},
+                'mu': mu, 'x0': x0, 'y0': y0, 'niter': N,
+                'probe': {'kind': 'doubleprox_dc-vs-simple', 'op': ['rn', M], 'f': f.spec, 'g': g.spec,
+                          'phi': phi.spec, 'gamma': gamma, 'mu': mu, 'x0': x0, 'y0': y0, 'niter': N}},
                ('dpdc', n, m, f.coq, g.coq, phi.coq, gamma, mu, N, tuple(x0), tuple(y0)) if N > 0 else None)
 
 
@@ -278,7 +288,9 @@ def gen_pdhg(rng, tier, cs):
                % (n, C.qss(M), f.coq, g.coq, C.q(tau), C.q(sigma), C.q(theta), C.qs(x0), _oqs(xr0), _oqs(y0), N,
                   C.qss(t1), _oqs(fin_xr), _oqs(fin_y), C.qss(sx), C.qss(sxr), C.qss(sy)),
                {'solver': 'pdhg', 'M': M, 'f': f.desc, 'g': g.desc, 'tau': tau, 'sigma': sigma, 'theta': theta,
-                'x0': x0, 'x_relax': xr0, 'y': y0, 'niter': N},
+                'x0': x0, 'x_relax': xr0, 'y': y0, 'niter': N,
+                'probe': {'kind': 'resume-pdhg', 'op': ['rn', M], 'f': f.spec, 'g': g.spec, 'tau': tau, 'sigma': sigma,
+                          'theta': theta, 'x0': x0, 'niter': N}},
                ('pdhg', n, m, f.coq, g.coq, tau, sigma, theta, mode, N, tuple(x0)) if N > 0 else None)
 
 
@@ -793,7 +805,7 @@ def probe_eval(d):
         Ls = [_pop(o) for o in d['ops']]
         gs = [_pf(s, Li.range) for s, Li in zip(d['gs'], Ls)]
         dom = Ls[0].domain
-        inner = d['inner']
+        inner = [_inner_step(v, Li.range) for v, Li in zip(d['inner'], Ls)]
         t1, c1 = rec()
         adupdates(_el(dom, d['x0']), gs, Ls, d['stepsize'], inner, N, callback=c1)
         t3, c3 = rec()
@@ -804,7 +816,11 @@ def probe_eval(d):
             adupdates_simple(x, gs, Ls, d['stepsize'], inner, j)
             t2.append(_flat(x))
         ok = len(t1) == N and _close(t1, t2) and len(t3) == N * len(Ls) and _close(t3[len(Ls) - 1::len(Ls)], t2)
-        return ok, np.array(t1).tolist(), np.array(t2).tolist()
+        # independent NumPy transcription of the textbook iteration (matrix operators, simple functionals)
+        t4 = _np_adupdates(d)
+        if t4 is not None:
+            ok = ok and _close(t1, t4) and _close(t2, t4)
+        return ok, np.array(t1).tolist(), np.array(t4 if t4 is not None else t2).tolist()
     if kind == 'doubleprox_dc-vs-simple':
         K = _pop(d['op'])
         f, g, phi = _pf(d['f'], K.domain), _pf(d['g'], K.range), _pf(d['phi'], K.domain)
@@ -994,6 +1010,65 @@ def probe_eval(d):
     return ok, [g.tolist() for g in got], [w.tolist() for w in want]
 
 
+def _inner_step(v, ran):
+    """inner step size of adupdates: a float, or ['list'|'array'|'element', values] (np.isscalar false)"""
+    if isinstance(v, (list, tuple)):
+        kind, vals = v
+        if kind == 'list':
+            return [float(a) for a in vals]
+        if kind == 'array':
+            return np.array(vals, dtype=float)
+        if kind == 'element':
+            return ran.element(vals)
+        raise ValueError(v)
+    return float(v)
+
+
+def _np_ccprox(spec, step, a):
+    """prox of step * (conjugate of spec) at a (entrywise step), or None when not in the small NumPy family"""
+    k = spec[0]
+    if k == 'zero':
+        return np.zeros_like(a)
+    if k == 'l1':
+        return np.clip(a, -1.0, 1.0)
+    if k == 'l2sq':
+        return a / (1.0 + step / 2.0)
+    if k == 'box':
+        return a - step * np.clip(a / step, spec[1], spec[2])
+    if k == 'nonneg':
+        return np.minimum(a, 0.0)
+    if k == 'scaled' and spec[2][0] == 'l1':
+        return np.clip(a, -spec[1], spec[1])
+    if k == 'scaled' and spec[2][0] == 'l2sq':
+        return a / (1.0 + step / (2.0 * spec[1]))
+    if k == 'trans':
+        return _np_ccprox(spec[2], step, a - step * np.asarray(spec[1], dtype=float))
+    return None
+
+
+def _np_adupdates(d):
+    """iterates of the alternating dual updates (fixed order) in plain NumPy, or None"""
+    if any(o[0] != 'rn' for o in d['ops']):
+        return None
+    Ms = [np.array(o[1], dtype=float) for o in d['ops']]
+    s = float(d['stepsize'])
+    steps = [s * (np.asarray(v[1], dtype=float) if isinstance(v, (list, tuple)) else float(v)) for v in d['inner']]
+    x = np.array(d['x0'], dtype=float)
+    duals = [np.zeros(M.shape[0]) for M in Ms]
+    out = []
+    for _ in range(d['niter']):
+        for M, dl in zip(Ms, duals):
+            x = x - (1.0 / s) * (M.T @ dl)
+        for j, M in enumerate(Ms):
+            t = _np_ccprox(d['gs'][j], steps[j], duals[j] + steps[j] * (M @ x))
+            if t is None:
+                return None
+            x = x - (1.0 / s) * (M.T @ (t - duals[j]))
+            duals[j] = t
+        out.append(x.copy())
+    return out
+
+
 def _projection(p):
     if p is None:
         return None
@@ -1081,6 +1156,44 @@ def _rand_op(rng, tier, allow_grad=True):
     return ['rn', _mat(rng, m, n)], n, m, False
 
 
+ARRAY_SIGMA_OK = [['l1'], ['l2sq'], ['zero'], ['nonneg'], ['box', -1.0, 2.0], ['scaled', 2.0, ['l1']],
+                  ['scaled', 0.5, ['l2sq']], ['trans', None, ['l2sq']], ['trans', None, ['l1']]]
+
+
+def _adup_stepsize_probes(rng, count, base=None):
+    """adupdates problems over matrix operators whose inner step sizes are scalars, lists, arrays or range
+    elements, outer stepsize in {0.5, 1, 2.5}.  The first one is fixed: two operators, stepsize 2.5,
+    element-valued inner step sizes, niter in 1, 2, 3, 5.  With `base` (a probe description) only the step
+    sizes are varied."""
+    out = []
+    if base is None:
+        for N in (1, 2, 3, 5):
+            d = {'kind': 'adupdates-vs-simple', 'ops': [['rn', [[1.0, 2.0, 0.0], [0.0, -1.0, 1.0]]], ['rn', [[2.0, 0.0, -1.0]]]],
+                 'gs': [['l2sq'], ['scaled', 0.5, ['l2sq']]], 'inner': [['element', [0.5, 0.25]], ['element', [0.125]]],
+                 'stepsize': 2.5, 'x0': [1.0, -2.0, 3.0], 'niter': N}
+            out.append((d, 'adupdates-vs-simple-inner=element-stepsize=2.5'))
+    for _ in range(count):
+        if base is None:
+            n = rng.randint(1, 4)
+            ms = [rng.randint(1, 3) for _ in range(rng.choice([1, 2, 2, 3]))]
+            gs = []
+            for m in ms:
+                g = rng.choice(ARRAY_SIGMA_OK)
+                gs.append(['trans', _vec(rng, m, -2, 2), g[2]] if g[0] == 'trans' else g)
+            d = {'kind': 'adupdates-vs-simple', 'ops': [['rn', _mat(rng, m, n)] for m in ms], 'gs': gs,
+                 'x0': _vec(rng, n), 'niter': rng.choice([1, 2, 3, 5])}
+        else:
+            d = dict(base)
+            ms = [len(o[1]) for o in d['ops']]
+        kinds = [rng.choice(['scalar', 'list', 'array', 'element']) for _ in ms]
+        if all(k == 'scalar' for k in kinds):
+            kinds[rng.randrange(len(kinds))] = rng.choice(['list', 'array', 'element'])
+        d['inner'] = [_dy(rng) if k == 'scalar' else [k, [_dy(rng) for _ in range(m)]] for k, m in zip(kinds, ms)]
+        d['stepsize'] = rng.choice([0.5, 1.0, 2.5, 2.5])
+        out.append((d, 'adupdates-vs-simple-inner=%s-stepsize=%g' % ('+'.join(kinds), d['stepsize'])))
+    return out
+
+
 def probes(rng, tier):
     out = []
     reps = 1 if tier == 'quick' else 8
@@ -1120,6 +1233,9 @@ def probes(rng, tier):
              'stepsize': _dy(rng, (0.5, 1.0, 2.0)), 'x0': _vec(rng, n), 'niter': rng.randint(1, 5 if tier == 'quick' else 12)}
         add(d, 'adupdates-vs-simple-g=%s' % '+'.join(_spec_name(s) for s in gs),
             'adupdates (outer and inner callbacks) and adupdates_simple give the same iterates')
+    # non-scalar inner step sizes (list / array / element valued) with an outer stepsize != 1
+    for d, key in _adup_stepsize_probes(rng, 6 * reps):
+        add(d, key, 'adupdates, adupdates_simple and a NumPy transcription give the same iterates with %s' % key[20:])
     for _ in range(20 * reps):
         op, n, m, ps = _rand_op(rng, tier)
         f, g, phi = _rand_spec(rng, n, 'prox'), _rand_spec(rng, m, 'prox', ps), _rand_spec(rng, n, 'smooth', plain_rn=op[0] not in ('grad', 'grad2d'))
@@ -1225,6 +1341,66 @@ def probes(rng, tier):
         add(d, 'resume-doubleprox_dc-f=%s-g=%s' % (_spec_name(f), _spec_name(g)),
             'doubleprox_dc: exact resumption of (x, y) for every splitting')
     return out
+
+
+# proof obligations of GenProofs.v -> the clause of the property their programs belong to
+_OBLIGATION_KIND = [('adup', 'adupdates-vs-simple'), ('admm', 'admm-vs-simple'), ('dpdc', 'doubleprox_dc-vs-simple'),
+                    ('pdhg', 'resume-pdhg'), ('lw', 'resume-landweber'), ('kz', 'resume-kaczmarz'),
+                    ('pg', 'resume-proximal_gradient'), ('em', 'resume-mlem'), ('osmlem', 'resume-mlem'),
+                    ('sd', 'resume-steepest_descent'), ('dca', 'resume-doubleprox_dc')]
+
+
+def _try(d, key, what):
+    try:
+        ok, obs, exp = probe_eval(d)
+        det = None if ok else {'observed': obs, 'expected': exp}
+    except Exception as e:
+        ok, det = False, {'raised': '%s: %s' % (type(e).__name__, str(e)[:300])}
+    return C.Probe(bool(ok), key, what, _replay(d), det)
+
+
+def search(rng, broken):
+    """Called by the driver when an obligation broke and no probe failed: evaluate the property itself
+    (optimised vs reference vs NumPy, or split vs unsplit runs) (1) on the parameters of every failing
+    correspondence case, (2) on step-size variations of it (scalar / list / array / element inner step
+    sizes, stepsize in {0.5, 1, 2.5}), (3) for a broken proof obligation on a focused family of the solver
+    it names.  Returns the first failing probe (a concrete replay) or None."""
+    known = C.load_findings(PID)
+    kinds = []
+    for kind, what, detail in broken:
+        if kind == 'correspondence' and isinstance(detail, dict) and isinstance(detail.get('probe'), dict):
+            d = detail['probe']
+            cands = [(d, '%s-correspondence-case' % d['kind'])]
+            if d['kind'] == 'adupdates-vs-simple':
+                cands += _adup_stepsize_probes(rng, 12, base=d)
+            if d['kind'] == 'admm-vs-simple':
+                cands += [(dict(d, tau=t, sigma=s_), 'admm-vs-simple-tau=%g-sigma=%g' % (t, s_))
+                          for t in (0.125, 0.5) for s_ in (0.5, 2.5)]
+            for dd, key in cands:
+                p = _try(dd, key, 'property evaluated on the parameters of the failing correspondence case %s' % what)
+                if not p.ok and p.key not in known:
+                    return p
+            kinds.append(d['kind'])
+        elif kind == 'proof':
+            for frag, k in _OBLIGATION_KIND:
+                if ('gen_%s' % frag) in what or ('%s_' % frag) in what:
+                    kinds.append(k)
+        elif kind == 'translator':
+            for frag, k in [('adupdates', 'adupdates-vs-simple'), ('admm', 'admm-vs-simple'),
+                            ('doubleprox', 'doubleprox_dc-vs-simple')]:
+                if frag in str(detail):
+                    kinds.append(k)
+    if 'adupdates-vs-simple' in kinds:
+        for dd, key in _adup_stepsize_probes(rng, 40):
+            p = _try(dd, key, 'adupdates vs adupdates_simple vs NumPy, varied step sizes')
+            if not p.ok and p.key not in known:
+                return p
+    # focused family: all probes of the thorough tier that belong to the named clauses
+    if kinds:
+        for p in probes(rng, 'thorough'):
+            if not p.ok and p.key not in known and any(p.key.startswith(k) for k in kinds):
+                return p
+    return None
 
 
 RULE = ('per solver (admm_linearized[_simple], adupdates[_simple], doubleprox_dc[_simple], dca, prox_dca, pdhg, landweber, '
